@@ -256,13 +256,16 @@ def run(ctx):
         rng = random.Random(ctx.seed + 13)
         n = 10 if ctx.tier == 'quick' else 300
         progs = special_programs() + [drawgen.random_program(rng, max_cells=2 if ctx.tier == 'quick' or rng.random() < 0.7 else 3) for _ in range(n)]
-        # every source class at least once with each reversal flag
+        # every source class at least once with each reversal flag and, where it has a phase, with a non-zero phase in degrees and in radians
         for k in drawgen.SOURCES:
-            for rev in (False, True):
+            for rev, deg in ((False, True), (True, False), (True, True)):
                 p = drawgen.random_program(rng, kinds=[k, 'Resistor'], n_sources=1, max_cells=1)
                 for s in p['symbols']:
                     if s['cls'] == k:
                         s['reverse'] = rev
+                        if 'deg' in s['kw'] and not s['kw'].get('sin'):
+                            s['kw']['deg'] = deg
+                            s['kw']['phi'] = 30.0 if deg else 0.5
                 progs.append(p)
         examine(ctx, progs, rng)
     return RULE
